@@ -25,6 +25,19 @@ structure CalcObj where
   monthsInYear : Int → R Int
   /-- `_validate_year_month_day(year, month, day)` -/
   validate : Int → Int → Int → R Unit
+  /-- `_get_day_of_year(year_month_day)` -/
+  dayOfYear : YMD → R Int := fun _ => .error .notImplemented
+  /-- `_get_year_month_day(year=…, day_of_year=…)` -/
+  ymdOfYearDay : Int → Int → R YMD := fun _ _ => .error .notImplemented
+  /-- `_min_year`, `_max_year` (properties returning the two `Final` attributes) -/
+  minYear : Int := 0
+  maxYear : Int := 0
+  /-- `_set_year(year_month_day, year)` -/
+  setYear : YMD → Int → R YMD := fun _ _ => .error .notImplemented
+  /-- `_add_months(year_month_day, months)` -/
+  addMonths : YMD → Int → R YMD := fun _ _ => .error .notImplemented
+  /-- `_months_between(start, end)` -/
+  monthsBetween : YMD → YMD → R Int := fun _ _ => .error .notImplemented
 
 /-- `CalendarSystem`: its calculator and the four `Final` range attributes. -/
 structure CalSys where
@@ -47,5 +60,11 @@ structure LDate where
 
 /-- `CalendarSystem._for_ordinal` on an ordinal represented by its calendar -/
 def forOrdinal (c : CalSys) : CalSys := c
+
+/-- `CalendarSystem._ordinal`: the ordinal, represented by the calendar it denotes -/
+def ordinalOf (c : CalSys) : CalSys := c
+
+/-- `_YearMonthDayCalendar._ctor(year=, month=, day=, calendar_ordinal=)` -/
+def YMDC.ofFields (y m d : Int) (c : CalSys) : YMDC := ⟨⟨y, m, d⟩, c⟩
 
 end Pyoda.Gen
